@@ -415,13 +415,16 @@ func c12R1R3(p *core.Program, r *core.Report, np *core.Func) {
 
 	// R3: keys
 	lineFn := keyFunc(p, np)
-	if lineFn == nil {
-		r.Anchor("R3", "function building an index key (position, line delta) in pkg/types")
-		return
+	direct := lineFn == nil // no key-building function: the keys are written out where they are used (keyFormOf reads them)
+	if direct {
+		lineFn = np
 	}
 	// shape of the fileLine closure: fileLine{position.Filename, position.Line + delta}
-	okShape := false
+	okShape := direct
 	ast.Inspect(lineFn.Body, func(n ast.Node) bool {
+		if direct {
+			return false
+		}
 		cl, ok := n.(*ast.CompositeLit)
 		if !ok || len(cl.Elts) != 2 {
 			return true
@@ -440,9 +443,16 @@ func c12R1R3(p *core.Program, r *core.Report, np *core.Func) {
 		}
 		return true
 	})
-	r.Check(okShape, "R3", lineFn, "key line is position.Line + delta", lineFn.Node().Pos(), "fileLine{Filename, Line + delta}", "the key-building closure does not compute Line + delta")
+	if !direct {
+		r.Check(okShape, "R3", lineFn, "key line is position.Line + delta", lineFn.Node().Pos(), "fileLine{Filename, Line + delta}", "the key-building closure does not compute Line + delta")
+	} else {
+		r.OK("R3", np, "keys are written as (file, line + constant) of a position where they are used", np.Node().Pos(), "no key-building function; each key is read as a literal over FileSet.Position (keyFormOf)")
+	}
 	var lineVar *types.Var
 	ast.Inspect(np.Body, func(n ast.Node) bool {
+		if direct {
+			return false
+		}
 		if as, ok := n.(*ast.AssignStmt); ok && len(as.Rhs) == 1 && as.Rhs[0] == ast.Expr(lineFn.Lit) {
 			lineVar = core.VarOf(info, as.Lhs[0])
 		}
@@ -469,27 +479,39 @@ func c12R1R3(p *core.Program, r *core.Report, np *core.Func) {
 			if as, ok := d.Node().(*ast.AssignStmt); ok && len(as.Rhs) == 1 {
 				rhs = as.Rhs[0]
 			}
-			c, ok := ast.Unparen(rhs).(*ast.CallExpr)
-			isKeyCall := ok && ((lineVar != nil && core.VarOf(info, c.Fun) == lineVar) || (lineFn.Obj() != nil && core.CalleeFunc(info, c) == lineFn.Obj()))
-			if rhs == nil || !isKeyCall || len(c.Args) != 2 {
-				good = false
-				continue
-			}
-			delta, isC := core.ConstInt(info, c.Args[1])
-			if !isC {
-				good = false
-				continue
+			var posArg ast.Expr
+			var delta int64
+			if direct {
+				pe, dl, okForm := keyFormOf(info, col.Body, rhs)
+				if rhs == nil || !okForm {
+					good = false
+					continue
+				}
+				posArg, delta = pe, dl
+			} else {
+				c, ok := ast.Unparen(rhs).(*ast.CallExpr)
+				isKeyCall := ok && ((lineVar != nil && core.VarOf(info, c.Fun) == lineVar) || (lineFn.Obj() != nil && core.CalleeFunc(info, c) == lineFn.Obj()))
+				if rhs == nil || !isKeyCall || len(c.Args) != 2 {
+					good = false
+					continue
+				}
+				dl, isC := core.ConstInt(info, c.Args[1])
+				if !isC {
+					good = false
+					continue
+				}
+				posArg, delta = c.Args[0], dl
 			}
 			switch {
-			case core.VarOf(info, c.Args[0]) == pPos && delta == 0 && trailing:
+			case core.VarOf(info, posArg) == pPos && delta == 0 && trailing:
 				forms = append(forms, "(stmt line)")
-			case core.VarOf(info, c.Args[0]) == pPos && delta == -1 && !trailing:
+			case core.VarOf(info, posArg) == pPos && delta == -1 && !trailing:
 				forms = append(forms, "(stmt line - 1)")
-			case isEndOf(info, c.Args[0], pGroup) && delta == 0:
+			case isEndOf(info, posArg, pGroup) && delta == 0:
 				forms = append(forms, "(group end line)")
 			default:
 				good = false
-				forms = append(forms, "UNEXPECTED "+core.ExprStr(c))
+				forms = append(forms, "UNEXPECTED "+core.ExprStr(rhs))
 			}
 		}
 		want := "the line above the statement or the line the group ends on"
@@ -867,6 +889,9 @@ func c12R2(p *core.Program, r *core.Report) {
 			r.Anchor(rule, "pkg/types."+spec.fn)
 			continue
 		}
+		if p.FuncByName("pkg/types", "(*pkgInfo).priorCommentLines") == nil {
+			continue // no lookup function: c12R2Direct reads the keys where Doc and Comment build them
+		}
 		calls := core.CallsTo(f.Info(), f.Body, false, lookupName)
 		ok := len(calls) == 1 && len(calls[0].Args) == 2
 		if ok {
@@ -880,7 +905,7 @@ func c12R2(p *core.Program, r *core.Report) {
 	}
 	f := p.FuncByName("pkg/types", "(*pkgInfo).priorCommentLines")
 	if f == nil {
-		r.Anchor(rule, "pkg/types.(*pkgInfo).priorCommentLines")
+		c12R2Direct(p, r)
 		return
 	}
 	f = flatten(p, f) // the reading half may be a helper (a method of an embedded index part)
@@ -1697,4 +1722,125 @@ func funcsUnder(p *core.Program, root *core.Func) []*core.Func {
 		}
 	}
 	return out
+}
+
+// keyFormOf reads a key of a comment index that is written out in place: `fileLine{x.Filename, x.Line + c}` (c a
+// constant, possibly absent or subtracted) with x the token.Position some mapping answered for one position
+// expression. It returns that position expression and the line delta.
+func keyFormOf(info *types.Info, body ast.Node, e ast.Expr) (pos ast.Expr, delta int64, ok bool) {
+	if e == nil {
+		return nil, 0, false
+	}
+	e, _ = core.Resolve(info, body, e)
+	cl, isLit := ast.Unparen(e).(*ast.CompositeLit)
+	if !isLit || len(cl.Elts) != 2 {
+		return nil, 0, false
+	}
+	val := func(el ast.Expr) ast.Expr {
+		if kv, isKV := el.(*ast.KeyValueExpr); isKV {
+			return kv.Value
+		}
+		return el
+	}
+	fileE, lineE := ast.Unparen(val(cl.Elts[0])), ast.Unparen(val(cl.Elts[1]))
+	if b, isB := lineE.(*ast.BinaryExpr); isB && (b.Op == token.ADD || b.Op == token.SUB) {
+		c, isC := core.ConstInt(info, b.Y)
+		if !isC {
+			return nil, 0, false
+		}
+		if b.Op == token.SUB {
+			c = -c
+		}
+		delta, lineE = c, ast.Unparen(b.X)
+	}
+	fs, ok1 := fileE.(*ast.SelectorExpr)
+	ls, ok2 := lineE.(*ast.SelectorExpr)
+	if !ok1 || !ok2 || fs.Sel.Name != "Filename" || ls.Sel.Name != "Line" {
+		return nil, 0, false
+	}
+	px, _ := core.Resolve(info, body, fs.X)
+	py, _ := core.Resolve(info, body, ls.X)
+	cx, isCx := ast.Unparen(px).(*ast.CallExpr)
+	cy, isCy := ast.Unparen(py).(*ast.CallExpr)
+	if !isCx || !isCy || cx != cy && !(core.SameRef(info, fs.X, ls.X)) {
+		return nil, 0, false
+	}
+	if t := info.TypeOf(cx); t == nil || core.NamedTypeName(t) != "go/token.Position" || len(cx.Args) < 1 {
+		return nil, 0, false
+	}
+	return cx.Args[0], delta, true
+}
+
+// c12R2Direct: R2 when Doc and Comment consult the indexes themselves (no lookup function between them and the maps).
+// In each of the two, every read of a comment index is keyed by (the position parameter, delta): Doc reads the leading
+// index only, at delta -1; Comment reads at delta 0, the trailing index and the leading one.
+func c12R2Direct(p *core.Program, r *core.Report) {
+	const rule = "R2"
+	for _, spec := range []struct {
+		fn    string
+		delta int64
+		what  string
+	}{{"(*pkgInfo).Doc", -1, "Doc consults the line above the declaration"}, {"(*pkgInfo).Comment", 0, "Comment consults the declaration's own line"}} {
+		f := p.FuncByName("pkg/types", spec.fn)
+		if f == nil {
+			r.Anchor(rule, "pkg/types."+spec.fn)
+			continue
+		}
+		f = flatten(p, f)
+		info := f.Info()
+		trailingReads, leadingReads := 0, 0
+		okKeys := true
+		ast.Inspect(f.Body, func(n ast.Node) bool {
+			ix, isIx := n.(*ast.IndexExpr)
+			if !isIx {
+				return true
+			}
+			fld := core.FieldOf(info, ix.X)
+			if !isCommentGroupMapField(fld) {
+				return true
+			}
+			pe, d, okForm := keyFormOf(info, f.Body, ix.Index)
+			pv := core.VarOf(info, pe)
+			if !okForm || d != spec.delta || pv == nil || !isParamOf(f, pv) {
+				okKeys = false
+			}
+			if isTrailingField(fld) {
+				trailingReads++
+				r.Check(spec.delta == 0 && okForm && d == 0, rule, f, "trailing index is read only for delta 0", ix.Pos(), "read in the lookup of the declaration's own line", "the trailing index is consulted for the doc lookup (delta != 0): a trailing comment of the previous line is returned as documentation")
+			} else {
+				leadingReads++
+			}
+			return true
+		})
+		r.Check(okKeys && leadingReads >= 1, rule, f, spec.what, f.Node().Pos(), "every index read is keyed by (the position passed in, "+itoa(spec.delta)+")", "the lookup is not made with line delta "+itoa(spec.delta)+" on the position passed in")
+		if spec.delta == 0 {
+			r.Check(trailingReads >= 1 && leadingReads >= 1, rule, f, "lookup reads both indexes", f.Node().Pos(), "trailing and leading index are read", "the lookup no longer reads the trailing/leading index")
+		}
+		if np := p.FuncByName("pkg/types", "newPkg"); np != nil {
+			var builder []string
+			if kf := keyFunc(p, np); kf != nil {
+				builder = positionMappings(p, kf, 0)
+			}
+			if len(builder) == 0 {
+				builder = positionMappings(p, np, 0)
+			}
+			if len(builder) == 0 {
+				// the keys are built inside the collecting closure
+				seen := map[string]bool{}
+				for _, sub := range funcsUnder(p, np) {
+					for _, m := range positionMappings(p, sub, 0) {
+						if !seen[m] {
+							seen[m] = true
+							builder = append(builder, m)
+						}
+					}
+				}
+				sort.Strings(builder)
+			}
+			lookup := positionMappings(p, f, 0)
+			same := len(builder) == 1 && len(lookup) == 1 && builder[0] == lookup[0]
+			r.Check(same, rule, f, "builder and lookup of the comment index map positions the same way", f.Node().Pos(), "both use "+strings.Join(builder, ", "),
+				"the comment index is built with {"+strings.Join(builder, ", ")+"} and consulted with {"+strings.Join(lookup, ", ")+"}: where the two mappings differ (below a //line directive) the doc and trailing comments of a declaration are not found")
+		}
+	}
 }
